@@ -249,7 +249,10 @@ def shrink(desc, uses, pol, code, pool, rng):
         return None
 
     cur = (desc, uses, pol)
+    t_end = time.time() + 45
     for _ in range(10):
+        if time.time() > t_end:
+            break
         d, u, p = cur
         cands = []
         for ci, c in enumerate(d["classes"]):
@@ -273,6 +276,10 @@ def shrink(desc, uses, pol, code, pool, rng):
                 cands.append((d, u[:ti] + u[ti + 1:]))
         found = None
         for d2, u2 in cands:
+            if time.time() > t_end:
+                break
+            if not valid(d2, u2):
+                continue
             n = len(u2)
             pols = [p] if n == len(u) else []
             pols += [{"kind": "preempt", "first": f, "switch": []} for f in range(n)]
@@ -330,24 +337,37 @@ def main2(tier, replay, pool):
     chk.proofs()
     rng = chk.rng
     quick = tier == "quick"
-    jobs, meta, per_case = [], [], []
+    jobs, meta, results = [], [], []
+    deadline = t0 + (150 if quick else 900)
+    truncated = []
+
+    def submit(js, ms, label):
+        if time.time() > deadline:
+            truncated.append(label)
+            return
+        results.extend(run_jobs(js, pool))
+        jobs.extend(js)
+        meta.extend(ms)
+
     # 1. sequential trigger independence: every trigger kind x every target, one thread
     n_seq = 25 if quick else 150
+    js, ms = [], []
     for _ in range(n_seq):
         d = gen_valid(rng, tier)
         k = len(d["classes"])
         for kind in USE_KINDS:
             for tgt in list(range(k)) + (["sub"] if d["sub"] else []):
-                jobs.append((d, [[kind, tgt]], {"kind": "preempt", "first": 0, "switch": []}))
-                meta.append(("seq", 1))
+                js.append((d, [[kind, tgt]], {"kind": "preempt", "first": 0, "switch": []}))
+                ms.append(("seq", 1))
         # a parent used first, then the child
         if k > 1:
             for kind in USE_KINDS:
-                jobs.append((d, [[kind, 0], [rng.choice(USE_KINDS), k - 1]], {"kind": "preempt", "first": 0, "switch": []}))
-                meta.append(("seq-parent-first", 2))
+                js.append((d, [[kind, 0], [rng.choice(USE_KINDS), k - 1]], {"kind": "preempt", "first": 0, "switch": []}))
+                ms.append(("seq-parent-first", 2))
+    submit(js, ms, "sequential")
     # 2. concurrent: classes x uses x schedules
-    n_cfg = 14 if quick else 60
-    budget = 1500 if quick else 12000
+    n_cfg = 12 if quick else 60
+    budget = 1200 if quick else 12000
     sched_info = []
     for ci in range(n_cfg):
         d = gen_valid(rng, tier)
@@ -357,25 +377,26 @@ def main2(tier, replay, pool):
             d = {"classes": [{"attrs": [[0, "attr", 2, False, False, False, "int"], [1, "plain", 0, True, True, True, "int"]],
                               "key": None, "frozen": False, "new": False}], "sub": None}
             u = [["inst", 0], ["meta", 0]]
+        if time.time() > deadline:
+            truncated.append(f"configuration {ci}")
+            continue
         pols, info = schedules_for(rng, d, u, pool, tier, budget if nth == 2 else budget // 2)
         info.update(threads=nth, classes=len(d["classes"]), uses=u)
         sched_info.append(info)
-        for p in pols:
-            jobs.append((d, u, p))
-            meta.append(("conc", nth))
+        submit([(d, u, p) for p in pols], [("conc", nth)] * len(pols), f"configuration {ci}")
     # 3. thorough: every schedule with <= 2 pre-emptions for small configurations
     if not quick:
         for nat in (1, 2):
             d = {"classes": [{"attrs": [[0, "attr", 2, False, True, False, "int"]] + ([[1, "field", 1, True, False, True, "int"]] if nat == 2 else []),
                               "key": None, "frozen": False, "new": False}], "sub": None}
             for u in ([["meta", 0], ["fields", 0]], [["inst", 0], ["meta", 0]]):
+                if time.time() > deadline:
+                    truncated.append(f"small scope {nat} {u}")
+                    continue
                 pols, info = schedules_for(rng, d, u, pool, tier, 10 ** 9 if nat == 1 else 60000)
                 info.update(threads=2, classes=1, uses=u, small_scope=True)
                 sched_info.append(info)
-                for p in pols:
-                    jobs.append((d, u, p))
-                    meta.append(("conc-small", 2))
-    results = run_jobs(jobs, pool)
+                submit([(d, u, p) for p in pols], [("conc-small", 2)] * len(pols), f"small scope {nat} {u}")
     t_run = time.time() - t0
     # generated uses must be valid sequentially (otherwise the case says nothing)
     invalid = [i for i, r in enumerate(results) if not r["eager_ok"]]
@@ -425,7 +446,7 @@ def main2(tier, replay, pool):
             "declaration_form_histogram(form+default kind)": forms,
             "deadlocks": sum(1 for r in results if r["deadlock"]), "stuck_timeouts": sum(r["stuck"] for r in results),
             "max_steps": max(r["steps"] for r in results), "events_per_run_max": max(r["nevents"] for r in results),
-            "schedule_sets": sched_info[:12],
+            "schedule_sets": sched_info[:12], "truncated_by_deadline": truncated,
             "anchored_lines_executed": {f: sorted(l for ff, l in lines if ff == f) for f in sorted({f for f, _ in lines})},
             "compared": "protocol event trace (placeholder tests, lock acquire/release with depth, re-check, body entry, declaration reads/consumption, publish, registration, wrapper removal, __new__ lookups) vs model trace for the same schedule; eager metadata vs model seq_meta; oracle: final class descriptions + thread outcomes vs eager reference",
         },
